@@ -795,7 +795,8 @@ class ET(Inverter):
             await self._set_offline(False)
 
     async def get_ongrid_battery_dod(self) -> int:
-        return 100 - await self.read_setting('battery_discharge_depth')
+        depth = await self.read_setting('battery_discharge_depth')
+        return 100 - depth if depth is not None else None
 
     async def set_ongrid_battery_dod(self, dod: int) -> None:
         if 0 <= dod <= 100:
